@@ -315,12 +315,17 @@ def r4(F, R):
     if len(el) != 1:
         raise Unverifiable("Collector::emitted_logs")
     b = el[0]
-    nested = F.nested(b)
-    gets = [(nb, s, t) for nb in nested for s, t in nb.calls(lambda t: callee_is(t, r"HashMap::<.*>::get$"))]
+    nested = [x for x in roles.family(F, b) if not x.name.endswith("::notify_about_closing_spans") and "notify_about_closing_spans::" not in x.name]
+    gets = [(nb, s, t) for nb in nested for s, t in nb.calls(lambda t: callee_is(t, r"HashMap::<.*>::get(_mut)?$"))]
     ok = False
     for nb, s, t in gets:
         ksl = A.slice_back(nb, [t["args"][1]])
+        # the key is the id that came with the message: a ScenarioId parameter of the closure / helper the look-up sits in, or
+        # (written in place) a part of what was received from the logs channel
         if ksl.params and "runner::basic::ScenarioId" in "".join(nb.locals[p] for p in ksl.params):
+            ok = True
+        dsl = A.deep_slice(F, nb, [t["args"][1]])
+        if any(callee_is(ct, r"UnboundedReceiver::<.*>::try_next$|Receiver::<.*>::try_next$|StreamExt::next$") for _, ct in dsl.calls):
             ok = True
     R.check(ok, "lookup-by-message-id", gets[0][1] if gets else b, "scenarios.get(&id of the message)", "a log message is not attributed through its own scenario id")
     logs = [(nb, s, st) for nb in nested for s, st in nb.assigns(lambda st: st["rv"]["k"] == "agg" and st["rv"].get("adt") == "event::Scenario" and st["rv"]["variant"] == "Log")]
